@@ -877,6 +877,14 @@ func ruleC08Mint(e *Env) {
 					from, to, x = c.X.Type(), c.Type(), c.X
 				case *ssa.MultiConvert:
 					from, to, x = c.X.Type(), c.Type(), c.X
+				case *ssa.BinOp:
+					// arithmetic on sizes outside the checked constructor builds a Size that no overflow test has seen
+					if types.Identical(c.Type(), sizeT) && (c.Op == token.MUL || c.Op == token.SHL || c.Op == token.ADD) && !(o == ns || onlyCalledFrom(e, o, ns, 0)) {
+						site := flow.FnName(fn)
+						ord[site+"arith"]++
+						e.S.Unk(rule, site, fmt.Sprintf("Size %s Size #%d", c.Op, ord[site+"arith"]), "a Size is computed by "+c.Op.String()+" outside the checked constructor: whether the result can wrap is not read here", e.posOf(in))
+					}
+					continue
 				default:
 					continue
 				}
@@ -891,13 +899,35 @@ func ruleC08Mint(e *Env) {
 				kind := fmt.Sprintf("%s <- %s", types.TypeString(to, types.RelativeTo(sp.Pkg)), types.TypeString(from, types.RelativeTo(sp.Pkg)))
 				ord[site+kind]++
 				construct := fmt.Sprintf("%s #%d", kind, ord[site+kind])
+				inCtor := o == ns || onlyCalledFrom(e, o, ns, 0)
+				inAcc := o == by || onlyCalledFrom(e, o, by, 0)
 				switch {
-				case toSize && isU64(from), fromSize && isU64(to):
-					e.S.Ok(rule, site, construct, "uint64 ↔ Size: value-preserving", e.posOf(in))
-				case toSize && (o == ns || onlyCalledFrom(e, o, ns, 0)):
+				case toSize && inCtor:
 					e.S.Ok(rule, site, construct, "inside the checked constructor (C08.ovf)", e.posOf(in))
-				case fromSize && (o == by || onlyCalledFrom(e, o, by, 0)):
+				case fromSize && inAcc:
 					e.S.Ok(rule, site, construct, "inside the checked accessor (C08.bytes)", e.posOf(in))
+				case toSize && isU64(from):
+					// the uint64 itself must be a value as it came: not another number squeezed through uint64 first
+					// (`Size(uint64(v))`), and not the result of arithmetic that can wrap (`Size(n << 10)`)
+					switch why, bad := c08WrappingOrigin(x, map[ssa.Value]bool{}); {
+					case bad:
+						e.S.Bad(rule, site, construct, "a number becomes a Size outside the checked constructor by way of uint64: "+why, e.posOf(in), "a negative int64")
+					case why != "":
+						e.S.Unk(rule, site, construct, "the uint64 turned into a Size outside the checked constructor is "+why+": whether it can wrap is not read here", e.posOf(in))
+					default:
+						e.S.Ok(rule, site, construct, "uint64 → Size: value-preserving", e.posOf(in))
+					}
+				case fromSize && isU64(to):
+					// … and the uint64 taken from a Size is not narrowed further on outside the checked accessor
+					if why := c08NarrowedLater(in.(ssa.Value), map[ssa.Value]bool{}); why != "" {
+						e.S.Bad(rule, site, construct, "a Size is converted, by way of uint64, to "+why+" outside the checked accessor Bytes: sizes beyond that type's range come out wrapped or negative", e.posOf(in), "Size(1<<63)")
+					} else {
+						e.S.Ok(rule, site, construct, "Size → uint64: value-preserving", e.posOf(in))
+					}
+				case toSize && c08ExactInto64(from):
+					e.S.Ok(rule, site, construct, "an unsigned integer of at most 64 bits: every value is a size", e.posOf(in))
+				case toSize && c08NonNegativeAt(x, in.Block()):
+					e.S.Ok(rule, site, construct, "a signed integer behind a dominating test that it is not negative", e.posOf(in))
 				case toSize:
 					e.S.Bad(rule, site, construct, "a number of a type other than uint64 becomes a Size outside the checked constructor: a negative or fractional value, or one beyond 64 bits, wraps instead of being refused", e.posOf(in), "a negative int64")
 				default:
@@ -936,4 +966,102 @@ func onlyCalledFrom(e *Env, fn, root *ssa.Function, depth int) bool {
 		}
 	}
 	return sites > 0
+}
+
+// c08WrappingOrigin: why the uint64 x is not a value as it came — bad: it is another numeric type converted to
+// uint64 (sign and fraction are lost before Size sees them); otherwise a non-empty reason names arithmetic whose
+// range is not read here.
+func c08WrappingOrigin(x ssa.Value, seen map[ssa.Value]bool) (string, bool) {
+	if seen[x] {
+		return "", false
+	}
+	seen[x] = true
+	switch v := x.(type) {
+	case *ssa.Convert:
+		if _, isConst := v.X.(*ssa.Const); isConst {
+			return "", false
+		}
+		if b, ok := v.X.Type().Underlying().(*types.Basic); ok && b.Info()&types.IsNumeric != 0 && b.Kind() != types.Uint64 && !c08ExactInto64(v.X.Type()) {
+			return "the " + v.X.Type().String() + " is converted to uint64 first, where a negative or fractional value, or one beyond 64 bits, wraps instead of being refused", true
+		}
+		return c08WrappingOrigin(v.X, seen)
+	case *ssa.ChangeType:
+		return c08WrappingOrigin(v.X, seen)
+	case *ssa.Phi:
+		for _, ed := range v.Edges {
+			if why, bad := c08WrappingOrigin(ed, seen); why != "" {
+				return why, bad
+			}
+		}
+	case *ssa.BinOp:
+		switch v.Op {
+		case token.MUL, token.SHL, token.ADD, token.SUB:
+			return "the result of " + v.Op.String() + " arithmetic", false
+		}
+	}
+	return "", false
+}
+
+// c08NarrowedLater: the type a uint64 taken from a Size is converted to further on (through phis), if any.
+func c08NarrowedLater(v ssa.Value, seen map[ssa.Value]bool) string {
+	if seen[v] || v.Referrers() == nil {
+		return ""
+	}
+	seen[v] = true
+	for _, r := range *v.Referrers() {
+		switch y := r.(type) {
+		case *ssa.Convert:
+			if b, ok := y.Type().Underlying().(*types.Basic); ok && b.Info()&types.IsInteger != 0 && b.Kind() != types.Uint64 && b.Kind() != types.Uintptr {
+				return y.Type().String()
+			}
+		case *ssa.Phi:
+			if why := c08NarrowedLater(y, seen); why != "" {
+				return why
+			}
+		}
+	}
+	return ""
+}
+
+// c08ExactInto64: an unsigned integer type of at most 64 bits.
+func c08ExactInto64(t types.Type) bool {
+	b, ok := t.Underlying().(*types.Basic)
+	return ok && b.Info()&types.IsUnsigned != 0 && b.Info()&types.IsInteger != 0
+}
+
+// c08NonNegativeAt: block at is dominated by the non-negative side of a test of x against 0 (`x < 0` false,
+// `x >= 0` true).
+func c08NonNegativeAt(x ssa.Value, at *ssa.BasicBlock) bool {
+	if x.Referrers() == nil {
+		return false
+	}
+	for _, r := range *x.Referrers() {
+		bo, ok := r.(*ssa.BinOp)
+		if !ok || bo.X != x || bo.Referrers() == nil {
+			continue
+		}
+		k, isK := bo.Y.(*ssa.Const)
+		if !isK || k.Value == nil || k.Value.Kind() != constant.Int || constant.Sign(k.Value) != 0 {
+			continue
+		}
+		side := -1
+		switch bo.Op {
+		case token.LSS:
+			side = 1
+		case token.GEQ:
+			side = 0
+		}
+		if side < 0 {
+			continue
+		}
+		for _, rr := range *bo.Referrers() {
+			if br, ok := rr.(*ssa.If); ok && br.Cond == ssa.Value(bo) {
+				succ := br.Block().Succs[side]
+				if len(succ.Preds) == 1 && succ.Dominates(at) {
+					return true
+				}
+			}
+		}
+	}
+	return false
 }
